@@ -5,13 +5,16 @@
 package c01
 
 import (
+	"encoding/base64"
 	"errors"
 	"fmt"
 	"sort"
 	"testing"
 
 	iec "github.com/nspcc-dev/neofs-node/internal/ec"
+	objectcore "github.com/nspcc-dev/neofs-node/pkg/core/object"
 	meta "github.com/nspcc-dev/neofs-node/pkg/local_object_storage/metabase"
+	cid "github.com/nspcc-dev/neofs-sdk-go/container/id"
 	"github.com/nspcc-dev/neofs-sdk-go/object"
 	oid "github.com/nspcc-dev/neofs-sdk-go/object/id"
 	"pgregory.net/rapid"
@@ -197,6 +200,9 @@ func (c *checker) checkAddr(a mm.Addr) {
 	// ResolveECPart
 	for rule := 0; rule < 2; rule++ {
 		for part := -1; part < 3; part++ {
+			if v.ParentKind != "ec" && (rule > 0 || part > 0) {
+				continue // full grid only for EC parents
+			}
 			id, err := c.db.ResolveECPart(uni.Cnr(a.C), addr.Object(), iec.PartInfo{RuleIndex: rule, Index: part})
 			cls := mm.Classify(err)
 			parts := m.ECParts(a, rule, part)
@@ -230,6 +236,37 @@ func (c *checker) checkAddr(a mm.Addr) {
 	}
 }
 
+// search is DB.Select with a small page (Select asks for 65535 items per call,
+// which allocates megabytes) – it also exercises the paging cursor.
+func search(db *meta.DB, cnr cid.ID, fs object.SearchFilters) ([]oid.Address, error) {
+	var (
+		res    []oid.Address
+		attrs  []string
+		cursor string
+	)
+	if len(fs) > 0 {
+		attrs = append(attrs, fs[0].Header())
+	}
+	for n := 0; n < 100; n++ {
+		ofs, cur, err := objectcore.PreprocessSearchQuery(fs, attrs, cursor)
+		if err != nil {
+			return nil, err
+		}
+		items, next, err := db.Search(cnr, ofs, attrs, cur, 5)
+		if err != nil {
+			return nil, err
+		}
+		for i := range items {
+			res = append(res, oid.NewAddress(cnr, items[i].ID))
+		}
+		if len(next) == 0 {
+			return res, nil
+		}
+		cursor = base64.StdEncoding.EncodeToString(next)
+	}
+	return nil, errors.New("search paging does not terminate")
+}
+
 func has(s []int, x int) bool {
 	for _, v := range s {
 		if v == x {
@@ -244,7 +281,7 @@ func (c *checker) checkContainer(ci int) {
 	cnr := uni.Cnr(ci)
 	avail := m.AvailableIn(ci, e)
 	sel := func(name string, fs object.SearchFilters, keep func(*mm.Obj) bool) {
-		res, err := c.db.Select(cnr, fs)
+		res, err := search(c.db, cnr, fs)
 		if err != nil {
 			c.fail("Search[%s](c%d): %v", name, ci, err)
 		}
@@ -271,7 +308,7 @@ func (c *checker) checkGlobal() {
 	// listing
 	must, may := m.Listed()
 	key := func(a mm.Addr) int { return a.C*100 + a.I }
-	for _, page := range []int{1, 3, 1000} {
+	for _, page := range []int{1, 3, 64} {
 		seen := map[int]bool{}
 		var cur *meta.Cursor
 		for n := 0; ; n++ {
@@ -351,7 +388,7 @@ func (c *checker) checkGlobal() {
 		}
 	}
 	// garbage
-	bins, err := c.db.GetGarbage(100000)
+	bins, err := c.db.GetGarbage(1000)
 	if err != nil {
 		c.fail("GetGarbage: %v", err)
 	}
